@@ -305,6 +305,8 @@ class FluidPropertyInterExtra(FluidProperty):
     def to_dict(self):
         d = super(FluidPropertyInterExtra, self).to_dict()
         d.update({k: self.prop_getter.__dict__[k] for k in self.prop_getter_entries.keys()})
+        # without extrapolation the fill value is a 0-d array (nan), which the JSON encoder rejects
+        d.update({k: v.item() for k, v in d.items() if isinstance(v, np.ndarray) and v.ndim == 0})
         # d.update({"x_values": self.prop_getter.x, "y_values": self.prop_getter.y,
         #           "method": "interpolate_extrapolate"
         #           if self.prop_getter.fill_value == "extrapolate" else None})
